@@ -242,6 +242,10 @@ def load_known():
     return json.load(open(p)).get("findings", [])
 
 
+RUN_INFO = dict(tier="quick", seed=1)   # set by check.py; recorded in replay files
+REPLAY_KEY = None                       # set by check.py --replay: only this violation key counts
+
+
 class Verdict:
     """Collects violations (of the real code), applies known_findings.json, prints the lines, decides the exit."""
 
@@ -264,6 +268,8 @@ class Verdict:
         unlisted = []
         reported = set()
         for v in self.violations:
+            if REPLAY_KEY is not None and v["key"] != REPLAY_KEY:
+                continue
             hit = None
             for k in open_entries:
                 if v["key"] == k["key"] or fnmatch.fnmatchcase(v["key"], k["key"]):
@@ -280,7 +286,8 @@ class Verdict:
             h = hashlib.sha1(v["key"].encode()).hexdigest()[:10]
             path = os.path.join(VERIF, "replays", "%s-%s.json" % (self.prop, h))
             with open(path, "w") as f:
-                json.dump(dict(property=self.prop, key=v["key"], what=v["what"], case=v["replay"]), f, indent=1, default=str)
+                json.dump(dict(property=self.prop, key=v["key"], what=v["what"], tier=RUN_INFO["tier"], seed=RUN_INFO["seed"], case=v["replay"]),
+                          f, indent=1, default=str)
             print("VIOLATION property=%s replay=%s" % (self.prop, path))
             print("  key=%s: %s" % (v["key"], v["what"]))
         sys.stdout.flush()
